@@ -661,12 +661,14 @@ func (ctx *actorContext) tryRestarted() {
 		return
 	}
 
+	ctx.processMessage(ctx.sender, ctx.ref, onTerminate, false)
+	ctx.processMessage(ctx.sender, ctx.ref, &OnTerminated{ctx.ref}, false)
+
+	// the subscriptions are released after the last handler of the old instance has run, so that a
+	// subscription made inside OnTerminate/OnTerminated does not survive the restart
 	for _, subscription := range ctx.subscriptions {
 		ctx.UnSubscribe(subscription)
 	}
-
-	ctx.processMessage(ctx.sender, ctx.ref, onTerminate, false)
-	ctx.processMessage(ctx.sender, ctx.ref, &OnTerminated{ctx.ref}, false)
 
 	ctx.internalPersistence()
 
@@ -766,12 +768,14 @@ func (ctx *actorContext) tryTerminated() {
 		return
 	}
 
+	terminatedMessage := &OnTerminated{TerminatedActor: ctx.ref}
+	ctx.processMessage(ctx.sender, ctx.ref, terminatedMessage, false)
+
+	// the subscriptions are released after the last handler has run, so that a subscription made inside
+	// OnTerminated is not left behind in the subscription table of a dead actor
 	for _, subscription := range ctx.subscriptions {
 		ctx.UnSubscribe(subscription)
 	}
-
-	terminatedMessage := &OnTerminated{TerminatedActor: ctx.ref}
-	ctx.processMessage(ctx.sender, ctx.ref, terminatedMessage, false)
 	ctx.system.rc.Unregister(ctx.sender, ctx.ref)
 	if ctx.scheduler != nil {
 		ctx.scheduler.Close()
